@@ -16,6 +16,7 @@ ASSUMPTIONS = ["Util::generateUuid returns distinct values"]
 
 
 def run(ctx):
+    uuid_generator_keeps_state(ctx)
     pg_scan_sampling_tick(ctx, "C06")
     from .C02 import engine_evaluation_order
     engine_evaluation_order(ctx)
